@@ -394,33 +394,32 @@ where
     ) -> Result<group_types::GroupExporterSecret, Error> {
         let group = self.load_mls_group(group_id)?.ok_or(Error::GroupNotFound)?;
 
-        match self
+        // The secret of the CURRENT epoch is always derived from the MLS state. A stored entry
+        // for the same epoch number may stem from another branch of the group's history (a
+        // state replaced by accepting a second invitation, for instance) and must not be
+        // trusted; it is replaced when it differs.
+        let export_secret: [u8; 32] = group
+            .export_secret(self.provider.crypto(), "nostr", b"nostr", 32)?
+            .try_into()
+            .map_err(|_| Error::Group("Failed to convert export secret to [u8; 32]".to_string()))?;
+        let group_exporter_secret = group_types::GroupExporterSecret {
+            mls_group_id: group_id.clone(),
+            epoch: group.epoch().as_u64(),
+            secret: mdk_storage_traits::Secret::new(export_secret),
+        };
+
+        let stored = self
             .storage()
             .get_group_exporter_secret(group_id, group.epoch().as_u64())
-            .map_err(|e| Error::Group(e.to_string()))?
-        {
-            Some(group_exporter_secret) => Ok(group_exporter_secret),
-            // If it's not already in the storage, export the secret and save it
-            None => {
-                let export_secret: [u8; 32] = group
-                    .export_secret(self.provider.crypto(), "nostr", b"nostr", 32)?
-                    .try_into()
-                    .map_err(|_| {
-                        Error::Group("Failed to convert export secret to [u8; 32]".to_string())
-                    })?;
-                let group_exporter_secret = group_types::GroupExporterSecret {
-                    mls_group_id: group_id.clone(),
-                    epoch: group.epoch().as_u64(),
-                    secret: mdk_storage_traits::Secret::new(export_secret),
-                };
+            .map_err(|e| Error::Group(e.to_string()))?;
 
-                self.storage()
-                    .save_group_exporter_secret(group_exporter_secret.clone())
-                    .map_err(|e| Error::Group(e.to_string()))?;
-
-                Ok(group_exporter_secret)
-            }
+        if stored.as_ref() != Some(&group_exporter_secret) {
+            self.storage()
+                .save_group_exporter_secret(group_exporter_secret.clone())
+                .map_err(|e| Error::Group(e.to_string()))?;
         }
+
+        Ok(group_exporter_secret)
     }
 
     /// Retrieves a MDK group by its MLS group ID
